@@ -15,7 +15,9 @@ ROUND3_CAUGHT = {"C02_9", "C10_7", "C09_7", "C09_9", "C04_7", "C04_9", "C08_8", 
 ROUND4_CAUGHT = {"C10_11", "C09_11", "C08_10", "C07_11", "C01_11", "C03_12", "C05_10", "C05_12", "C15_11", "C14_11", "C14_12", "C16_10", "C16_12", "C20_11",
                  "C12_10", "C12_11", "C13_10", "C13_11", "C11_11", "C11_12", "C18_12", "C19_11", "C19_12", "C17_10", "C17_11"}
 ROUND5_CAUGHT = {"C04_14", "C08_15", "C01_13"}
-ROUND2_CAUGHT |= ROUND3_CAUGHT | ROUND4_CAUGHT | ROUND5_CAUGHT
+ROUND6_PROPS = {"C03", "C05", "C13", "C14", "C15", "C16", "C18", "C20"}      # sixth round: seeds _13, _14 of these
+ROUND6_CAUGHT = {"C13_13", "C13_14", "C14_13", "C14_14", "C16_13", "C18_13", "C15_13", "C15_14", "C20_13", "C05_13", "C05_14"}
+ROUND2_CAUGHT |= ROUND3_CAUGHT | ROUND4_CAUGHT | ROUND5_CAUGHT | ROUND6_CAUGHT
 for _p in range(1, 21):
     for _i in (4, 5, 6, 7, 8, 9, 10, 11, 12, 13, 14, 15):
         _n = f"C{_p:02d}_{_i}"
@@ -52,6 +54,7 @@ r1 = [r for r in rows if int(r[0].split("_")[1]) <= 3]
 r2 = [r for r in rows if 3 < int(r[0].split("_")[1]) <= 6]
 r3 = [r for r in rows if 6 < int(r[0].split("_")[1]) <= 9]
 r4 = [r for r in rows if 9 < int(r[0].split("_")[1]) <= 12]
-r5 = [r for r in rows if int(r[0].split("_")[1]) > 12]
-print(f"\nFirst round: {sum(1 for r in r1 if r[3] == 'caught')} of {len(r1)} caught at the first run; second round: {sum(1 for r in r2 if r[3] == 'caught')} of {len(r2)}; third round: {sum(1 for r in r3 if r[3] == 'caught')} of {len(r3)}; fourth round: {sum(1 for r in r4 if r[3] == 'caught')} of {len(r4)}; fifth round (eight properties): {sum(1 for r in r5 if r[3] == 'caught')} of {len(r5)}. "
+r5 = [r for r in rows if int(r[0].split("_")[1]) > 12 and r[0].split("_")[0] not in ROUND6_PROPS]
+r6 = [r for r in rows if int(r[0].split("_")[1]) > 12 and r[0].split("_")[0] in ROUND6_PROPS]
+print(f"\nFirst round: {sum(1 for r in r1 if r[3] == 'caught')} of {len(r1)} caught at the first run; second round: {sum(1 for r in r2 if r[3] == 'caught')} of {len(r2)}; third round: {sum(1 for r in r3 if r[3] == 'caught')} of {len(r3)}; fourth round: {sum(1 for r in r4 if r[3] == 'caught')} of {len(r4)}; fifth round (eight properties): {sum(1 for r in r5 if r[3] == 'caught')} of {len(r5)}; sixth round (the other eight properties with twelve seeds, session 4): {sum(1 for r in r6 if r[3] == 'caught')} of {len(r6)}. "
       f"After strengthening {sum(1 for r in rows if r[2] == 'caught')} of {len(rows)} seeded changes are caught by the quick tier of the property's check.")
